@@ -135,6 +135,19 @@ CLAIMED: dict[str, tuple[str, str, str, str, str]] = {
         "dataflow-framework obligations: abstract interpretation of one worklist iteration + set-algebra truth tables",
         "DESIGN §5 C09",
     ),
+    "C10": (
+        "other",
+        "Decides: no place in the compiler packages consumes an unordered collection (set / set algebra on dict views / "
+        "set-annotated names, attributes, return values) in an order-sensitive way (raise/return/break/yield in the loop, "
+        "list or dict building, pop, next(iter), list/tuple/join/unpack); worklists whose order reaches output are dicts; no "
+        "id/hash/random/time/environment input. This is the 'for every hash seed and heap layout' quantifier turned into an "
+        "enumeration of consumer sites. Byte-identity of HUGR serialisation itself (hugr library) is not decided.",
+        "Trusted: ast parser; set-kind inference is annotation driven (a set that is nowhere annotated and flows through an "
+        "unannotated call is missed; floors on the number of discovered sites and APIs guard against silent loss); embedded "
+        "positive/negative examples must classify correctly on every run.",
+        "type-kind inference + consumer classification lint (dataflow of unordered collections into order-sensitive sinks)",
+        "DESIGN §5 C10",
+    ),
 }
 
 NOT_APPLICABLE: dict[str, str] = {
